@@ -663,7 +663,15 @@ class Sim(object):
                   for cb, res, err in self.fired])
         out += L([[o, n] for _, o, n in self.roles])
         tl = self.tr(self.step_nid).tlog if (self.step_nid in self.nodes) else []
-        out += L([list(x) for x in tl])
+        # within a run of notifications of the same kind the order is a set iteration order: sort each run
+        canon, run = [], []
+        for x in tl:
+            if run and run[0][0] != x[0]:
+                canon += sorted(run)
+                run = []
+            run.append(tuple(x))
+        canon += sorted(run)
+        out += L([list(x) for x in canon])
         out += [self.exc, self.jumped]
         return out
 
